@@ -65,6 +65,42 @@ Fixpoint rdiff_from (i : nat) (cs : list rcase) : list (nat * nat * nat) :=
   | c :: t => map (fun d => (i, fst d, snd d)) (rcase_diff c) ++ rdiff_from (S i) t
   end.
 
+(* ---- the caller reuses ONE ProvideInfo, ONE DecorateInfo and ONE InvokeInfo for all
+        calls of the history: a call that succeeds overwrites its struct with its own
+        declaration; a call that fails leaves the struct exactly as it was ---- *)
+Definition infos := (list ientry * list ientry)%type.
+
+Definition info_sh (prev : infos) (r : rop) (accepted : bool) : infos :=
+  if accepted then info_of r true else prev.
+
+Fixpoint raw_diff_sh (i : nat) (h : list rop) (im : list oobs) (inf : list infos)
+         (pp pd pi : infos) : list (nat * nat) :=
+  match h, im, inf with
+  | r :: h', b :: im', f :: inf' =>
+      let prev := match r with RProvide _ _ _ _ => pp | RDecorate _ _ _ _ => pd | RInvoke _ _ _ => pi | RCore _ => ([], []) end in
+      let e := match r with RCore _ => ([], []) | _ => info_sh prev r (is_ok b) end in
+      (if list_eqb ientry_eqb (fst e) (fst f) && list_eqb ientry_eqb (snd e) (snd f) then [] else [(i, 2)]) ++
+      match r with
+      | RProvide _ _ _ _ => raw_diff_sh (S i) h' im' inf' e pd pi
+      | RDecorate _ _ _ _ => raw_diff_sh (S i) h' im' inf' pp e pi
+      | RInvoke _ _ _ => raw_diff_sh (S i) h' im' inf' pp pd e
+      | RCore _ => raw_diff_sh (S i) h' im' inf' pp pd pi
+      end
+  | _, _, _ => []
+  end.
+
+(* verdict classes as in [raw_diff]; Info through the shared structs *)
+Definition rcase_diff_sh (c : rcase) : list (nat * nat) :=
+  filter (fun d => Nat.eqb (snd d) 1)
+         (raw_diff 0 (rc_hist c) (raw_obs (rc_cfg c) (rc_hist c)) (rc_impl c) (rc_info c)) ++
+  raw_diff_sh 0 (rc_hist c) (rc_impl c) (rc_info c) ([], []) ([], []) ([], []).
+
+Fixpoint rdiff_sh_from (i : nat) (cs : list rcase) : list (nat * nat * nat) :=
+  match cs with
+  | [] => []
+  | c :: t => map (fun d => (i, fst d, snd d)) (rcase_diff_sh c) ++ rdiff_sh_from (S i) t
+  end.
+
 (* C14 on implementation traces of raw histories.  codes: 1401 dig panicked
    (or Visualize/String did)  1403 an input the parse model rejects was accepted *)
 Fixpoint raw_c14 (i : nat) (h : list rop) (im : list oobs) : list (nat * nat) :=
